@@ -2,6 +2,7 @@
 Also hosts the renderer-agreement rules R01.1/R01.2 shared with C01."""
 from mirq import ty_str
 from mirq.origin import Origins, show, walk, decisions, lit_truth
+from mirq.canon import Canon
 from mirq.pat import match, find, strip_refs
 from rules.c14 import field_index
 from rules.c10 import fold
@@ -209,10 +210,13 @@ def geometry_inputs(prog, rep, rule, only=None):
             rep.fail(rule, shape + ":draw", "draw_styled anchor lost (%d)" % len(ds), status="undecided")
         for which, f, pi, si in fns:
             org = Origins(f)
+            cn = Canon(prog)
             n = 0
             bad = []
             for nm in ("stroke_area", "fill_area"):
-                for bi, a, t in sites(f, nm, org):
+                # call sites in f and in helpers introduced by an edit (arguments expressed over f's parameters)
+                for st in cn.sites(f, nm):
+                    a, t = st.args, st.t
                     if not t["f"].get("path", "").startswith(PS):
                         continue
                     n += 1
@@ -229,7 +233,8 @@ def geometry_inputs(prog, rep, rule, only=None):
                       "the %s renderer must take its areas from style.stroke_area/fill_area of the unmodified primitive and style (as Styled::fill_area()/stroke_area() do); found %s (%d area calls)" % (which, bad, n),
                       at=f.span, fn=f.path)
             # generator argument order
-            for bi, a, t in sites(f, "new", org):
+            for st in cn.sites(f, "new"):
+                a, t = st.args, st.t
                 p = t["f"].get("path", "")
                 if p.endswith("StyledScanlines::new"):
                     ok = a[0][0] == "call" and a[0][1].endswith("::stroke_area") and a[1][0] == "call" and a[1][1].endswith("::fill_area")
